@@ -136,6 +136,12 @@ func Ref(alg string, wire []byte, fin error) (open string, out []byte, term stri
 
 // Digest describes a body outcome opaquely: sha256 prefix, length, end.
 func Digest(data []byte, term string) string {
+	if strings.HasPrefix(term, "err") {
+		// how much a decoder hands out before it reports an error depends on how its input
+		// arrives (brotli: 0 bytes vs 3941 bytes on the same corrupt stream); the property is
+		// about the error. What precedes it is judged by the lanes' oracles on the raw bytes.
+		return "partial:" + term
+	}
 	h := sha256.Sum256(data)
 	return fmt.Sprintf("%s:%d:%s", hex.EncodeToString(h[:6]), len(data), term)
 }
